@@ -15,6 +15,7 @@ NOT_DECIDED = [
     "sizes on patch entries are not written (the canonical layout has none)",
 ]
 CONFIG_SENSITIVE = False
+DESUGAR = True
 
 EAB = "distinfo::Entry::as_bytes"
 DAB = "distinfo::Distinfo::as_bytes"
